@@ -549,6 +549,15 @@ func (e *RouterEnv) Close() {
 // Query sends one wire query through listener kind l and returns the responses received
 // (waiting `grace` after the first one for duplicates), or an error class.
 // client: textual client address for the DoH header (ignored elsewhere; "-" = none).
+// srcOf: on the socket listeners (udp, tcp, gnet, tls, quic) a client "127.x.y.z" is the loopback SOURCE address the
+// harness client binds (every address of 127/8 is local); "-" or anything else: the default source 127.0.0.1.
+func srcOf(client string) net.IP {
+	if ip := net.ParseIP(client); ip != nil && ip.To4() != nil && ip.To4()[0] == 127 {
+		return ip.To4()
+	}
+	return nil
+}
+
 func (e *RouterEnv) Query(l string, wire []byte, client string, timeout, grace time.Duration) (resps [][]byte, status string) {
 	// "<listener>@<path>": a DoH request for another URL path than /dns-query
 	urlPath := "/dns-query"
@@ -563,7 +572,11 @@ func (e *RouterEnv) Query(l string, wire []byte, client string, timeout, grace t
 			// a non-primary local address; the connected socket only accepts a reply coming from exactly this address
 			dst = net.IPv4(127, 0, 0, byte(2+len(wire)%2))
 		}
-		c, err := net.DialUDP("udp", nil, &net.UDPAddr{IP: dst, Port: port})
+		var laddr *net.UDPAddr
+		if ip := srcOf(client); ip != nil {
+			laddr = &net.UDPAddr{IP: ip}
+		}
+		c, err := net.DialUDP("udp", laddr, &net.UDPAddr{IP: dst, Port: port})
 		if err != nil {
 			return nil, "dial-error"
 		}
@@ -584,15 +597,18 @@ func (e *RouterEnv) Query(l string, wire []byte, client string, timeout, grace t
 		}
 		return resps, "ok"
 	case l == "quic":
-		return e.queryQuic(port, wire, timeout, grace)
+		return e.queryQuic(port, wire, srcOf(client), timeout, grace)
 	case l == "tcp" || l == "gnet" || l == "tls":
 		var c net.Conn
 		var err error
+		d := &net.Dialer{Timeout: time.Second}
+		if ip := srcOf(client); ip != nil {
+			d.LocalAddr = &net.TCPAddr{IP: ip}
+		}
 		if l == "tls" {
-			d := &net.Dialer{Timeout: time.Second}
 			c, err = tls.DialWithDialer(d, "tcp", fmt.Sprintf("127.0.0.1:%d", port), &tls.Config{InsecureSkipVerify: true})
 		} else {
-			c, err = net.DialTimeout("tcp", fmt.Sprintf("127.0.0.1:%d", port), time.Second)
+			c, err = d.Dial("tcp", fmt.Sprintf("127.0.0.1:%d", port))
 		}
 		if err != nil {
 			return nil, "dial-error"
@@ -765,10 +781,22 @@ func (e *RouterEnv) EnableKeyed(ttl uint32, maxDelay time.Duration) {
 }
 
 // queryQuic sends one DoQ query (one stream, 2-octet length prefix) and reads the response frames on that stream.
-func (e *RouterEnv) queryQuic(port int, wire []byte, timeout, grace time.Duration) ([][]byte, string) {
+func (e *RouterEnv) queryQuic(port int, wire []byte, src net.IP, timeout, grace time.Duration) ([][]byte, string) {
 	ctx, cancel := context.WithTimeout(context.Background(), timeout)
 	defer cancel()
-	c, err := quic.DialAddr(ctx, fmt.Sprintf("127.0.0.1:%d", port), &tls.Config{InsecureSkipVerify: true, NextProtos: []string{"doq"}}, nil)
+	var c quic.Connection
+	var err error
+	tc := &tls.Config{InsecureSkipVerify: true, NextProtos: []string{"doq"}}
+	if src != nil {
+		pc, err2 := net.ListenUDP("udp", &net.UDPAddr{IP: src})
+		if err2 != nil {
+			return nil, "dial-error"
+		}
+		defer pc.Close()
+		c, err = quic.Dial(ctx, pc, &net.UDPAddr{IP: net.IPv4(127, 0, 0, 1), Port: port}, tc, nil)
+	} else {
+		c, err = quic.DialAddr(ctx, fmt.Sprintf("127.0.0.1:%d", port), tc, nil)
+	}
 	if err != nil {
 		return nil, "dial-error"
 	}
